@@ -9,7 +9,7 @@ from __future__ import annotations
 import ast
 
 from .interp import analyze, analyze_precise, truth
-from .model import FuncInfo, Model, unparse
+from .model import AnalysisError, FuncInfo, Model, unparse
 from .terms import NONE, show
 
 N, E, NE, Z, NZ, OBJ = "None", "Empty", "NonEmpty", "Zero", "NonZero", "Obj"
@@ -84,6 +84,12 @@ def refine(shapes: frozenset, t, facts) -> frozenset:
         shapes = shapes & {N}
     elif isn is False:
         shapes = shapes - {N}
+    if N in shapes and t[0] != "const":
+        # a method of the value was called on this path (its result is a known fact): the value is not None
+        for k in facts:
+            if k[0] == "call" and k[1][0] == "attr" and k[1][1] == t:
+                shapes = shapes - {N}
+                break
     return frozenset(shapes)
 
 
@@ -355,6 +361,25 @@ class Shapes:
                     c = self.model.resolve_global(r[1], sts[0].value.func.id)
                     if c and c[0] == "class" and self.model.has_func(f"{c[1]}.{c[2]}.__call__"):
                         return self.model.func(f"{c[1]}.{c[2]}.__call__")
+                # ... built through a partial object, a factory or tuple unpacking (however the quoters module spells it)
+                key = ("inst", r[1], r[2])
+                if key not in self._inst:
+                    self._inst[key] = None
+                    try:
+                        from .fold import CannotFold, module_value
+                        from .rules.quoters import constructor_call
+                        try:
+                            cc = constructor_call(self.model, r[1], module_value(self.model, r[1], r[2]))
+                        except (CannotFold, AnalysisError):
+                            cc = None
+                        if cc is not None:
+                            for mod in ("_quoting_py",):
+                                if self.model.has_func(f"{mod}.{cc[0]}.__call__"):
+                                    self._inst[key] = self.model.func(f"{mod}.{cc[0]}.__call__")
+                    except ImportError:
+                        pass
+                if self._inst[key] is not None:
+                    return self._inst[key]
         if f[0] == "attr" and f[1] in (("param", "self"), ("param", "cls")) and fi is not None and fi.cls:
             q = f"{fi.module}.{fi.cls}.{f[2]}"
             if self.model.has_func(q):
